@@ -60,6 +60,8 @@ def step : List String → String
        | none => "bad-op")
     | _, _ => "bad-op"
   | ["newval"] => "skip"
+  | ["jailval", _] => "skip"
+  | ["unjailval", _] => "skip"
   | _ => "bad-op"
 
 end Haqq.Driver.C04
